@@ -104,6 +104,17 @@ int MPI_Type_create_resized(MPI_Datatype o, MPI_Aint lb, MPI_Aint ext, MPI_Datat
 { int e = PMPI_Type_create_resized(o, lb, ext, n); TNEW(e, n); return e; }
 int MPI_Type_dup(MPI_Datatype o, MPI_Datatype *n)
 { int e = PMPI_Type_dup(o, n); TNEW(e, n); return e; }
+/* MPI_Type_get_contents hands out new references to the constituent derived types; the caller has to free them */
+int MPI_Type_get_contents(MPI_Datatype t, int mi, int ma, int md, int *ai, MPI_Aint *aa, MPI_Datatype *ad)
+{
+    int e = PMPI_Type_get_contents(t, mi, ma, md, ai, aa, ad);
+    if (e == MPI_SUCCESS)
+        for (int i = 0; i < md; i++) {
+            int ni, na, nd, comb;
+            if (PMPI_Type_get_envelope(ad[i], &ni, &na, &nd, &comb) == MPI_SUCCESS && comb != MPI_COMBINER_NAMED) { shim_bal[0]++; shim_tot[0]++; }
+        }
+    return e;
+}
 int MPI_Type_free(MPI_Datatype *t)
 { shim_bal[0]--; return PMPI_Type_free(t); }
 
